@@ -8,6 +8,7 @@ import (
 	"go/constant"
 	"go/token"
 	"go/types"
+	"golang.org/x/tools/go/packages"
 	"os"
 	"strings"
 )
@@ -609,24 +610,21 @@ func c10PartialWrite(p *Prog, r *Report, cs *FuncInfo, wObj types.Object, midFie
 }
 
 func c10StreamReader(p *Prog, r *Report) {
-	fi := p.Func(kSRRead)
-	if fi == nil {
+	if p.Func(kSRRead) == nil {
 		r.Undecided("C10.d", kSRRead, "", "streamreader.Read not found")
 		return
 	}
-	f := p.FlatOf(fi)
-	n := 0
-	for _, gn := range f.Nodes {
-		if gn.Ast == nil {
-			continue
+	recv := callPred{name: "sel:Recv", fn: func(pkg *packages.Package, c *ast.CallExpr) bool {
+		sel, ok := ast.Unparen(c.Fun).(*ast.SelectorExpr)
+		return ok && sel.Sel.Name == "Recv" && p.staticCallee(pkg, c) == nil
+	}}
+	// all methods of the reader: the receive loop may live in a helper of Read
+	n := p.errSitesInScope(r, "C10.d", p.methodsOf("internal/utils/grpc/streamreader", "reader"), recv, func(isBase bool) flowOpts {
+		if isBase {
+			return flowOpts{Tolerated: []string{"is:io.EOF"}, Class: true}
 		}
-		for _, c := range callsIn(gn.Ast, false) {
-			if sel, ok := c.Fun.(*ast.SelectorExpr); ok && sel.Sel.Name == "Recv" {
-				n++
-				f.SiteConsumed(r, "C10.d", kSRRead+"#Recv", fi, f.bindOf(gn, c), flowOpts{Tolerated: []string{"is:io.EOF"}, Class: true})
-			}
-		}
-	}
+		return flowOpts{Class: true}
+	})
 	r.Floor("C10.d", "Recv-sites", n, 1)
 }
 
